@@ -299,6 +299,18 @@ class TheCheck(SeqCheck):
                           note="getnext (newmem and not) failing in the k-th call, retried with the same cursor, walk completed; n<=5"))
         sts.append(Stream("small-glue", pack(self.gen_small_glue()), history=True,
                           note="toarray/reverse/resize/walk on 0..3 elements"))
+        # element sizes N-1, N, N+1 around every integer constant of the CURRENT qvector.c (after preprocessing,
+        # incl. products / shifts of literals), under every growth policy and from capacity 0, 1 and half the
+        # final count: self-checking passes (fill, insert, remove, pop, reverse; every byte verified) (seed C10-m9)
+        nums = [n for n in vlib.source_numbers(["src/containers/qvector.c"], hi=1 << 22) if n >= 300]
+        bops = []
+        for n in nums:
+            for os_ in (n - 1, n, n + 1):
+                for opt in (EXACT, LINEAR, DOUBLE):
+                    for cap in ((0, 1, 5) if os_ == n + 1 or n < 70000 else (1,)):
+                        bops.append("huge 9 %d %d %d" % (os_, opt, cap))
+        sts.append(Stream("source-boundary-element-sizes", bops, history=False, nomodel=True,
+                          note="self-checking passes with element sizes around the constants of the current source: %s" % nums))
         if not quick:
             # byte sizes beyond 2^31 (2^25+1 elements of 64 bytes is corpus/C10/huge_removeat_int_size.ops)
             sts.append(Stream("huge", ["huge 2049 1048576", "huge 4194305 512", "huge 4099 1048576"], history=False, nomodel=True,
